@@ -8,6 +8,12 @@
 
 package starkcurve
 
+//@ func isZeroed
+//@ loop 0
+//@ + invariant[prefix] -1 <= rangeindex && rangeindex < len(buf) && firstByte == 0 && forall(j, 0, rangeindex+1, buf[j] == 0)
+//@ ensures[value] result == (firstByte == 0 && forall(j, 0, len(buf), buf[j] == 0))
+//@ modifies nothing
+//@ end
 
 //@ func G1Affine.IsInSubGroup
 //@ layer ring fp.Element
